@@ -564,10 +564,16 @@ fn run(cfg: &Cfg) -> Report {
             for w in [2u32, 4, 8, 16] {
                 tasks.push(Task::SampleBin(*op, w, n));
             }
-            tasks.push(Task::SampleBin(*op, 3, n / 8));
+            // widths outside the property's stated quantifier (1/2/4/8) that real P-Code contains (3-byte, 10-byte x87, ...)
+            for w in [3u32, 5, 6, 7, 9, 10, 11, 12, 15] {
+                tasks.push(Task::SampleBin(*op, w, n / 8));
+            }
         }
         for w in [2u32, 3, 4, 8, 16] {
             tasks.push(Task::SampleUnCast(w, n));
+        }
+        for w in [5u32, 6, 7, 9, 10, 11, 12, 15] {
+            tasks.push(Task::SampleUnCast(w, n / 8));
         }
         for _ in 0..8 {
             tasks.push(Task::SampleMixed(n));
